@@ -290,8 +290,249 @@ impl Part for SmallExhaustive {
     }
 }
 
+
+// ---------------------------------------------------------------------------------------
+// the real adaptors (tokio UDP, WebSocket) under cancellation, on loopback sockets
+// ---------------------------------------------------------------------------------------
+#[derive(Clone, Debug)]
+pub struct AdaptorCase {
+    pub websocket: bool,
+    pub compressed: bool,
+    /// what the peer sends, unit by unit (UDP: one datagram of whole frames; WebSocket: one binary message, frames may be split)
+    pub units: Vec<Vec<u8>>,
+    /// per unit: 0 = send, then read; 1 = poll a read to Pending, drop it, send, read; 2 = poll to Pending, send, wait, drop
+    /// WITHOUT polling again, read; 3 = poll to Pending, send, await the same future
+    pub schedule: Vec<u8>,
+}
+
+fn run_adaptor_session(c: &AdaptorCase) -> Result<(Vec<String>, usize), String> {
+    use futures_util::{SinkExt, StreamExt};
+    use std::time::Duration;
+    let mode = if c.compressed && !c.websocket { Mode::Compressed } else { Mode::Uncompressed };
+    let rt = tokio::runtime::Builder::new_current_thread().enable_all().build().map_err(|e| format!("bind: {e}"))?;
+    let c = c.clone();
+    guard(move || {
+        rt.block_on(async move {
+            // --- set up the connection and a way to make the peer send unit i
+            let (tx, mut rx) = tokio::sync::mpsc::unbounded_channel::<Option<Vec<u8>>>();
+            let mut framed;
+            if c.websocket {
+                let listener = tokio::net::TcpListener::bind("127.0.0.1:0").await.map_err(|e| format!("bind: {e}"))?;
+                let addr = listener.local_addr().unwrap();
+                let _server = tokio::spawn(async move {
+                    let Ok((stream, _)) = listener.accept().await else { return };
+                    let Ok(mut ws) = tokio_tungstenite::accept_async(stream).await else { return };
+                    while let Some(m) = rx.recv().await {
+                        match m {
+                            Some(b) => {
+                                if ws.send(tokio_tungstenite::tungstenite::Message::binary(b)).await.is_err() {
+                                    return;
+                                }
+                            },
+                            None => {
+                                let _ = ws.close(None).await;
+                                while let Some(Ok(_)) = ws.next().await {}
+                                return;
+                            },
+                        }
+                    }
+                });
+                let (ws, _) = tokio_tungstenite::connect_async(format!("ws://{addr}/connect")).await.map_err(|e| format!("connect: {e}"))?;
+                framed = insim::net::tokio_impl::Framed::new(Box::new(insim::net::tokio_impl::WebsocketStream::from(ws)), Codec::new(mode.clone()));
+            } else {
+                let a = tokio::net::UdpSocket::bind("127.0.0.1:0").await.map_err(|e| format!("bind: {e}"))?;
+                let peer = tokio::net::UdpSocket::bind("127.0.0.1:0").await.map_err(|e| format!("bind: {e}"))?;
+                a.connect(peer.local_addr().unwrap()).await.map_err(|e| format!("connect: {e}"))?;
+                peer.connect(a.local_addr().unwrap()).await.map_err(|e| format!("connect: {e}"))?;
+                let _server = tokio::spawn(async move {
+                    while let Some(Some(b)) = rx.recv().await {
+                        if peer.send(&b).await.is_err() {
+                            return;
+                        }
+                    }
+                });
+                framed = insim::net::tokio_impl::Framed::new(Box::new(insim::net::tokio_impl::UdpStream::from(a)), Codec::new(mode.clone()));
+            }
+            // --- how many frames does each unit complete?
+            let mut stream: Vec<u8> = vec![];
+            let mut done_before = 0usize;
+            let mut results: Vec<String> = vec![];
+            let mut drops = 0usize;
+            for (i, unit) in c.units.iter().enumerate() {
+                stream.extend_from_slice(unit);
+                let done_now = {
+                    // number of COMPLETE frames in the bytes sent so far
+                    let (mut i, mut n) = (0usize, 0usize);
+                    while i < stream.len() {
+                        let a = match mode {
+                            Mode::Compressed => stream[i] as usize * 4,
+                            Mode::Uncompressed => stream[i] as usize,
+                        };
+                        if a < 4 || i + a > stream.len() {
+                            break;
+                        }
+                        i += a;
+                        n += 1;
+                    }
+                    n
+                };
+                let completes = done_now - done_before;
+                done_before = done_now;
+                let sched = c.schedule.get(i).copied().unwrap_or(0) % 4;
+                let mut need = completes;
+                let mut early: Vec<String> = vec![];
+                let mut timed_out = false;
+                {
+                    // the read started BEFORE the unit is sent lives only inside this block
+                    let mut first = if sched != 0 { Some(Box::pin(framed.read())) } else { None };
+                    if let Some(fut) = first.as_mut() {
+                        if let Poll::Ready(r) = futures_util::poll!(fut.as_mut()) {
+                            // can only happen if frames of an earlier unit were left unread, which the loop below prevents
+                            return Err(format!("unexpected result before unit {i} was sent: {}", render(&r)));
+                        }
+                    }
+                    match sched {
+                        1 => {
+                            drop(first.take());
+                            drops += 1;
+                            tx.send(Some(unit.clone())).map_err(|_| "peer gone".to_string())?;
+                        },
+                        2 => {
+                            tx.send(Some(unit.clone())).map_err(|_| "peer gone".to_string())?;
+                            // let the data arrive at the socket while the old future is neither polled nor dropped
+                            tokio::time::sleep(Duration::from_millis(3)).await;
+                            drop(first.take());
+                            drops += 1;
+                        },
+                        _ => {
+                            tx.send(Some(unit.clone())).map_err(|_| "peer gone".to_string())?;
+                        },
+                    }
+                    if let Some(mut fut) = first.take() {
+                        // schedule 3: keep using the future that was started before the data existed
+                        if completes == 0 {
+                            for _ in 0..3 {
+                                tokio::time::sleep(Duration::from_millis(1)).await;
+                                if let Poll::Ready(r) = futures_util::poll!(fut.as_mut()) {
+                                    return Err(format!("result {} although no frame is complete after unit {i}", render(&r)));
+                                }
+                            }
+                            drop(fut);
+                            drops += 1;
+                            need = usize::MAX; // marker: partial data already consumed under cancellation
+                        } else {
+                            match tokio::time::timeout(Duration::from_secs(2), fut).await {
+                                Ok(r) => early.push(render(&r)),
+                                Err(_) => timed_out = true,
+                            }
+                            need -= 1;
+                        }
+                    }
+                }
+                results.extend(early);
+                if timed_out {
+                    results.push("<nothing delivered within 2 s>".into());
+                    return Ok((results, drops));
+                }
+                if need == usize::MAX {
+                    need = 0;
+                } else if completes == 0 {
+                    // make the connection consume the partial data, then cancel that read
+                    let mut fut = Box::pin(framed.read());
+                    for _ in 0..3 {
+                        tokio::time::sleep(Duration::from_millis(1)).await;
+                        if let Poll::Ready(r) = futures_util::poll!(fut.as_mut()) {
+                            return Err(format!("result {} although no frame is complete after unit {i}", render(&r)));
+                        }
+                    }
+                    drop(fut);
+                    drops += 1;
+                }
+                for _ in 0..need {
+                    match tokio::time::timeout(Duration::from_secs(2), framed.read()).await {
+                        Ok(r) => results.push(render(&r)),
+                        Err(_) => {
+                            results.push("<nothing delivered within 2 s>".into());
+                            return Ok((results, drops));
+                        },
+                    }
+                }
+            }
+            if c.websocket {
+                let _ = tx.send(None);
+                match tokio::time::timeout(Duration::from_secs(2), framed.read()).await {
+                    Ok(r) => results.push(render(&r)),
+                    Err(_) => results.push("<no end of stream within 2 s>".into()),
+                }
+            }
+            Ok((results, drops))
+        })
+    })
+    .map_err(|p| format!("panic: {p}"))?
+}
+
+pub struct RealAdaptors;
+impl Part for RealAdaptors {
+    type Case = AdaptorCase;
+    fn name(&self) -> &'static str {
+        "udp-and-websocket-adaptors-with-drops"
+    }
+    fn check(&self, c: &AdaptorCase, ev: &mut Local) -> Result<(), Fail> {
+        let mode = if c.compressed && !c.websocket { Mode::Compressed } else { Mode::Uncompressed };
+        let (results, drops) = match run_adaptor_session(c) {
+            Ok(r) => r,
+            Err(e) => {
+                if e.starts_with("bind") || e.starts_with("connect") {
+                    eprintln!("INCONCLUSIVE: loopback sockets unavailable: {e}");
+                    std::process::exit(2);
+                }
+                fail!(if e.starts_with("panic") { "c19:panic" } else { "c19:adaptor-result-out-of-turn" }, "{e}");
+            },
+        };
+        let stream: Vec<u8> = c.units.concat();
+        let mut want = model_results(&mode, false, &[ReadStep::Data(stream.clone())], false, 100_000);
+        if !c.websocket {
+            // UDP has no end of stream
+            let _ = want.pop();
+        } else if boundaries(&stream, &mode).last().map(|e| *e > stream.len()).unwrap_or(false) {
+            // ends inside a frame: the model's last entry is still Disconnected
+        }
+        if results != want {
+            let i = (0..want.len().max(results.len())).find(|i| results.get(*i) != want.get(*i)).unwrap();
+            fail!(
+                if c.websocket { "c19:websocket-adaptor-loses-data-on-cancel" } else { "c19:udp-adaptor-loses-data-on-cancel" },
+                "{} adaptor, {} cancellations: result #{i} is {} instead of {}",
+                if c.websocket { "websocket" } else { "udp" },
+                drops,
+                results.get(i).map(|s| s.chars().take(80).collect::<String>()).unwrap_or("<nothing>".into()),
+                want.get(i).map(|s| s.chars().take(80).collect::<String>()).unwrap_or("<nothing>".into())
+            );
+        }
+        if drops > 0 {
+            ev.nontrivial(&format!("{c:?}"));
+        }
+        ev.class(if c.websocket { "websocket" } else { "udp" });
+        ev.max("cancellations", drops as u64);
+        if ev.wants_sample() && c.units.len() <= 4 {
+            ev.sample(|| json!({"adaptor": if c.websocket { "websocket" } else { "udp" }, "units": c.units.iter().map(|u| hex(u)).collect::<Vec<_>>(), "schedule": c.schedule, "cancellations": drops}));
+        }
+        Ok(())
+    }
+    fn to_json(&self, c: &AdaptorCase) -> Value {
+        json!({"websocket": c.websocket, "compressed": c.compressed, "units": c.units.iter().map(|u| hex(u)).collect::<Vec<_>>(), "schedule": c.schedule})
+    }
+    fn from_json(&self, v: &Value) -> Option<AdaptorCase> {
+        Some(AdaptorCase {
+            websocket: v.get("websocket")?.as_bool()?,
+            compressed: v.get("compressed")?.as_bool()?,
+            units: v.get("units")?.as_array()?.iter().map(|u| unhex(u.as_str()?)).collect::<Option<Vec<_>>>()?,
+            schedule: v.get("schedule")?.as_array()?.iter().filter_map(|x| x.as_u64().map(|x| x as u8)).collect(),
+        })
+    }
+}
+
 pub fn parts() -> Vec<Box<dyn DynPart>> {
-    vec![Box::new(Generated), Box::new(SmallExhaustive)]
+    vec![Box::new(Generated), Box::new(SmallExhaustive), Box::new(RealAdaptors)]
 }
 
 pub fn run(run: &mut Run) {
@@ -301,7 +542,7 @@ pub fn run(run: &mut Run) {
         Oracle: the delivered results equal those of the same script without drops (which itself must equal the C05 model); the \
         outgoing byte stream consists of whole frames, exactly one TINY_NONE per delivered keep-alive, application frames intact and in \
         order. Complete: every subset of the first 13 poll indices x every subset of application writes after the first 4 read attempts, for three small scripts x 2 modes; generated: sessions of all packet \
-        kinds with many keep-alives and 0..12 drop points. Non-trivial = at least one drop actually happened while the future was Pending."
+        kinds with many keep-alives and 0..12 drop points. A third part drives the real tokio UDP and WebSocket adaptors on loopback: before / after each datagram or message is sent a read is polled to Pending and dropped (also with a partial frame buffered), and the delivered packets must equal the model's. Non-trivial = at least one drop actually happened while the future was Pending."
         .into();
     run.assumptions = vec![
         "dropping the future between polls is the only cancellation mechanism (what select!/timeout do)".into(),
@@ -332,4 +573,42 @@ pub fn run(run: &mut Run) {
         });
     let n = run.budget(40_000, 3_000_000);
     run.prop(&Generated, strat, n);
+    // the real adaptors
+    run.max_shrink_iters = 60;
+    let frames = proptest::collection::vec(frame_strategy(1, 0), 1..12);
+    let strat = (any::<bool>(), any::<bool>(), frames, cutting_strategy(), proptest::collection::vec(0u8..4, 0..40), proptest::collection::vec(1usize..5, 1..12)).prop_map(|(websocket, compressed, frames, cutting, schedule, per_dgram)| {
+        let mode = if compressed && !websocket { Mode::Compressed } else { Mode::Uncompressed };
+        let fb: Vec<Vec<u8>> = frames.iter().filter(|f| !matches!(f, FrameSpec::KeepAlive)).map(|f| frame_bytes(f, &mode)).collect();
+        let units: Vec<Vec<u8>> = if websocket {
+            let stream: Vec<u8> = fb.concat();
+            let mut u = cut_stream(&stream, &mode, &cutting);
+            if u.len() > 60 {
+                // cap the number of messages (byte-wise cutting of long streams)
+                let rest: Vec<u8> = u.split_off(60).concat();
+                u.push(rest);
+            }
+            u
+        } else {
+            // whole frames per datagram, at most 1020 bytes
+            let mut out: Vec<Vec<u8>> = vec![];
+            let mut it = fb.into_iter().peekable();
+            let mut k = 0;
+            while it.peek().is_some() {
+                let n = per_dgram[k % per_dgram.len()];
+                k += 1;
+                let mut d: Vec<u8> = vec![];
+                for _ in 0..n {
+                    match it.peek() {
+                        Some(f) if d.len() + f.len() <= 1020 || d.is_empty() => d.extend_from_slice(&it.next().unwrap()),
+                        _ => break,
+                    }
+                }
+                out.push(d);
+            }
+            out
+        };
+        AdaptorCase { websocket, compressed, units, schedule }
+    });
+    let n = run.budget(400, 20_000);
+    run.prop(&RealAdaptors, strat, n);
 }
